@@ -27,6 +27,10 @@ CHECKS = {
    technique="position monitor: global bounds oracle + absolute position oracle from a position-recording emitter + metamorphic shift oracle (k columns / k lines) on the real linter",
    text="Bounds: every diagnostic of the corpus, of 17 kinds of byte/line mutations of it and of all generated workflows has 1<=line<=lines and column>=1 (YAML-level errors excepted). Absolute: 5000 (quick) / 200000 (thorough) generated cases, each a clean workflow plus one diagnosed construct (55 expression sites in three modes, 44 key sites, 36 value sites, 15 glob character classes) under random layouts (indentation, nesting, flow/block, plain/single/double quoted, earlier placeholders, preceding text); the reported line:column must equal the recorded position. Shift: each case is re-emitted with k extra columns / lines / preceding text / an earlier placeholder and the whole diagnostic multiset must move by exactly k.",
    note="Exactness only inside the statement's domain (one line, no escapes, ASCII). Three open known findings (quoted matrix values off by one; line beyond EOF for escaped newlines and for implicit null values)."),
+ "C08": dict(level="exploration", design="§4 C08",
+   technique="metamorphic monitor: letter-case flips of known name occurrences vs. the unflipped run on the real linter (memory and on-disk projects)",
+   text="A seeded generator builds workflows and projects (local actions, local reusable workflows) in which every name occurrence and its class is known (48 site classes: contexts, properties, functions, step and job ids in keys / needs / expressions, inputs, secrets, outputs, matrix keys, with: keys, action metadata keys, fromJSON literal keys, string index literals). Each case flips the case of a non-empty subset (same length, names unique after folding) and requires the same multiset of (file, line, col, kind, lower-cased message). 40% clean bases, 60% with one of 28 injected name-related defects, so equality is not vacuous; 11 fixed templates get every single flip exhaustively.",
+   note="Never flipped: true/false/null, other string literals, YAML syntax keys, env keys, event/shell/label names, action specs."),
  "C10": dict(level="exploration", design="§4 C10",
    technique="Go race detector over multi-file workloads + isolation (alone vs. together) metamorphic monitor with seeded hook delays + table/config fingerprint invariants + file-vs-AST interface comparison",
    text="Generated layouts (one repo, two repos, prefix-named siblings, nested repositories, loose files, many files) whose workflows depend on their own repository's config, local action and reusable workflow and produce diagnostics built from shared tables. Every file is linted alone, then together in subsets / argument orders under GOMAXPROCS 1/2/4/16 with seeded delays at hook points (check start, cache writes); per-file diagnostics must be equal. Built-in table and shared *Config fingerprints are compared before/after; a third of the cases run in the -race build and every report touching actionlint frames is a violation; both cache-write interleavings must have been observed. Exploration of schedules, not enumeration.",
